@@ -15,6 +15,7 @@ type MethodScope struct {
 
 	vars       []*Var
 	conflicted map[string]bool
+	reserved   []string
 }
 
 // AddVar allocates a variable instance and adds it to the method scope.
@@ -175,6 +176,109 @@ func (m *MethodScope) resolveImportVarConflicts(imports map[string]*Package) {
 				name = m.resolveVarNameConflict(name)
 			}
 			v.Name = name
+		}
+	}
+}
+
+// bodyIdents are the identifiers the body of a generated method uses.
+var bodyIdents = []string{"mock", "callInfo", "nil", "append", "panic"}
+
+// resolveShadowing renames every variable which is named like an
+// identifier the generated method has to resolve: the identifiers of the
+// method body, the reserved names, the qualifiers of the imported
+// packages and the names of the types which are written unqualified.
+func (m *MethodScope) resolveShadowing() {
+	needed := make(map[string]bool)
+	for _, name := range bodyIdents {
+		needed[name] = true
+	}
+	for _, name := range m.reserved {
+		needed[name] = true
+	}
+	for _, v := range m.vars {
+		for _, imprt := range v.imports {
+			if imprt != nil {
+				needed[imprt.Qualifier()] = true
+			}
+		}
+		m.unqualifiedTypeNames(v.vr.Type(), needed, map[types.Type]bool{})
+	}
+
+	for _, v := range m.vars {
+		if !needed[v.Name] {
+			continue
+		}
+		name := v.Name + "MoqParam"
+		for n := 1; ; n++ {
+			if _, used := m.searchVar(name); !used && !needed[name] {
+				break
+			}
+			name = v.Name + "MoqParam" + strconv.Itoa(n)
+		}
+		v.Name = name
+	}
+}
+
+// unqualifiedTypeNames collects the names of all types mentioned by t
+// which are printed without a package qualifier.
+func (m *MethodScope) unqualifiedTypeNames(t types.Type, names map[string]bool, seen map[types.Type]bool) {
+	if t == nil || seen[t] {
+		return
+	}
+	seen[t] = true
+
+	object := func(obj *types.TypeName, targs *types.TypeList) {
+		if obj.Pkg() == nil || stripVendorPath(obj.Pkg().Path()) == m.moqPkgPath {
+			names[obj.Name()] = true
+		}
+		for i := 0; i < targs.Len(); i++ {
+			m.unqualifiedTypeNames(targs.At(i), names, seen)
+		}
+	}
+
+	switch t := t.(type) {
+	case *types.Basic:
+		if t.Kind() != types.UnsafePointer {
+			names[t.Name()] = true
+		}
+	case *types.TypeParam:
+		names[t.Obj().Name()] = true
+	case *types.Named:
+		object(t.Obj(), t.TypeArgs())
+	case *types.Alias:
+		object(t.Obj(), t.TypeArgs())
+	case *types.Pointer:
+		m.unqualifiedTypeNames(t.Elem(), names, seen)
+	case *types.Slice:
+		m.unqualifiedTypeNames(t.Elem(), names, seen)
+	case *types.Array:
+		m.unqualifiedTypeNames(t.Elem(), names, seen)
+	case *types.Chan:
+		m.unqualifiedTypeNames(t.Elem(), names, seen)
+	case *types.Map:
+		m.unqualifiedTypeNames(t.Key(), names, seen)
+		m.unqualifiedTypeNames(t.Elem(), names, seen)
+	case *types.Tuple:
+		for i := 0; i < t.Len(); i++ {
+			m.unqualifiedTypeNames(t.At(i).Type(), names, seen)
+		}
+	case *types.Signature:
+		m.unqualifiedTypeNames(t.Params(), names, seen)
+		m.unqualifiedTypeNames(t.Results(), names, seen)
+	case *types.Struct:
+		for i := 0; i < t.NumFields(); i++ {
+			m.unqualifiedTypeNames(t.Field(i).Type(), names, seen)
+		}
+	case *types.Interface:
+		for i := 0; i < t.NumExplicitMethods(); i++ {
+			m.unqualifiedTypeNames(t.ExplicitMethod(i).Type(), names, seen)
+		}
+		for i := 0; i < t.NumEmbeddeds(); i++ {
+			m.unqualifiedTypeNames(t.EmbeddedType(i), names, seen)
+		}
+	case *types.Union:
+		for i := 0; i < t.Len(); i++ {
+			m.unqualifiedTypeNames(t.Term(i).Type(), names, seen)
 		}
 	}
 }
